@@ -531,6 +531,22 @@ def wl_datafile(ctx, idx, rng):
         except Exception:
             pass
         mon.expect_time = None
+    # phases reached a few ms inside the ends of a validity interval are still in range (default starting point)
+    with probes.quiet():
+        ivs = list(pred.intervals)
+    for a_, b_ in ivs[:2]:
+        d_ = float(gen.pick(rng, [1e-3, 5e-3, 2e-2, 0.1, 1.0]))
+        for t in (a_ + d_ * u.s, b_ - d_ * u.s):
+            with probes.quiet():
+                ph = pred(t)
+                f0v = pred.f0(t).to_value(u.cycle / u.s)
+            mon.expect_time = (t, f0v, True)
+            ctx.count("time_at_near_interval_edge")
+            try:
+                pred.time_at(ph)
+            except Exception:
+                pass
+            mon.expect_time = None
     ctx.bucket("datafile", idx % 4)
     ctx.describe_case({"file": "tests/data/timing.dat", "entries": len(entries)})
     REGISTRY.pop(id(pred), None)
